@@ -313,6 +313,34 @@ impl GenCfg {
             self.order, self.lpf_taps, self.tree, self.quoted as u8, self.alpha, self.dur_scale, self.variant, self.zero_spectrum as u8
         )
     }
+    /// inverse of `describe` (used by replay commands)
+    pub fn parse(desc: &str) -> Option<GenCfg> {
+        let inner = desc.strip_prefix("G(")?.split(')').next()?;
+        let mut c = GenCfg::default();
+        for kv in inner.split(',') {
+            let (k, v) = kv.split_once('=')?;
+            match k {
+                "ns" => c.ns = v.parse().ok()?,
+                "stage" => c.stage = v.parse().ok()?,
+                "lg" => c.log_gain = v == "1",
+                "n" => c.nstate = v.parse().ok()?,
+                "W" => c.wset = v.parse().ok()?,
+                "gv" => c.gv = v == "1",
+                "rate" => c.rate = v.parse().ok()?,
+                "fp" => c.fperiod = v.parse().ok()?,
+                "order" => c.order = v.parse().ok()?,
+                "lpf" => c.lpf_taps = v.parse().ok()?,
+                "tree" => c.tree = v.parse().ok()?,
+                "q" => c.quoted = v == "1",
+                "alpha" => c.alpha = v.parse().ok()?,
+                "dur" => c.dur_scale = v.parse().ok()?,
+                "var" => c.variant = v.parse().ok()?,
+                "z" => c.zero_spectrum = v == "1",
+                _ => return None,
+            }
+        }
+        Some(c)
+    }
     fn tree_for(&self, s: usize) -> (TreeSpec, usize) {
         if self.tree == 0 || s % 2 == 1 {
             (TreeSpec::Leaf(1), 1)
